@@ -50,6 +50,15 @@ CHECKS = {
               "word; datasets of all ten types and ranks 1..5 with partial/size-1 chunks go through filter 32017 and the bound is checked."),
         note=TB_COMMON + "HDF5 1.10.8 trusted; the dataset round trip is explored (exploration), only the parameter packing is proved; REL bounds only judged on evenly divided chunks.",
         technique="Coq proof over a word-list model + differential check of the exported helpers + end-to-end HDF5 round trips"),
+    "C14": dict(
+        category="proof", design_ref="DESIGN.md §4 C14",
+        text=("Proved: detransposeData inverts transposeData for every shape of rank 1..4 and every content (index identities by div/mod "
+              "reasoning, lifted to lists), with the pinned tree's 2-D behaviour as a refuted statement; model vs C on transposition. Explored "
+              "on the implementation: 14 public entry points (defaults call, caller-buffer variants, customize names and their threadsafe twins, "
+              "Fortran dN wrappers) run next to the canonical pair on the same input: statuses, counts, bit-identical reconstructions where the "
+              "names denote one algorithm, bound for all."),
+        note=TB_COMMON + "Wrapper agreement is a differential between entry points of the implementation (exploration), not a theorem; kernels' classes are C01-C03's.",
+        technique="Coq proof of the transposition algebra + differential check between public entry points"),
 }
 
 NOT_YET = {}
